@@ -208,11 +208,13 @@ pub fn none_v() -> Value {
 
 impl Drop for Tok {
     fn drop(&mut self) {
+        let _q = Quiet::new();
         log(json!({"ev":"drop","v":cv(true,self.b,self.n,self.last)}));
     }
 }
 impl Drop for Fail {
     fn drop(&mut self) {
+        let _q = Quiet::new();
         log(json!({"ev":"drop","v":cv(false,self.b,self.n,self.last)}));
     }
 }
@@ -1480,6 +1482,7 @@ pub fn main_loop(table: &[(&str, Prog)]) {
         header.insert("prog".into(), r["prog"].clone());
         header.insert("plan".into(), r["plan"].clone());
         header.insert("gates".into(), r["gates"].clone());
+        header.insert("count".into(), json!(r["count"].as_bool().unwrap_or(false)));
         let rs = RunSpec { header: Value::Object(header), plan, gates };
         begin_run(&rs);
         let sched: Vec<Value> = r["sched"].as_array().cloned().unwrap_or_default();
